@@ -122,7 +122,7 @@ class Gen:
                             if dd and dd[0] in ('spec', 'entry', 'tail'):
                                 cur = {'sec': dd[0], 'k': None, 'lines': [], 'uline': j + 1}
                                 sections.append(cur)
-                            elif dd and dd[0] in ('loop', 'loopbody'):
+                            elif dd and dd[0] in ('loop', 'loopbody', 'loopend'):
                                 cur = {'sec': dd[0], 'k': int(dd[1]), 'lines': [], 'uline': j + 1,
                                        'opts': _opts(dd[2:])}
                                 sections.append(cur)
@@ -398,14 +398,14 @@ class Gen:
                 off = body_open
             elif kind == 'entry':
                 off = body_open + 1
-            elif kind in ('loop', 'loopbody'):
+            elif kind in ('loop', 'loopbody', 'loopend'):
                 k = sec['k']
                 if k < 1 or k > len(loops):
                     # the function no longer has this loop: its loop clauses are dropped (recorded), the function's own
                     # contract is still checked against the new body - a body that needs the loop fails its ensures
                     self.dropped_loop_sections.append('%s: %s has %d loop(s), contract names loop %d' % (rel, qual, len(loops), k))
                     continue
-                off = loops[k - 1]['open'] + (1 if kind == 'loopbody' else 0)
+                off = loops[k - 1]['close'] if kind == 'loopend' else loops[k - 1]['open'] + (1 if kind == 'loopbody' else 0)
             elif kind == 'tail':
                 off = rsx.fn_tail_offset(text)
                 if off is None:
